@@ -268,7 +268,7 @@ func (ex *Exec) allocFact(r Val, t types.Type) {
 		return
 	}
 	if r.S == "Ref" && r.T != "" {
-		ex.e.assume(fmt.Sprintf("(or (= %s nil) (select %s %s))", r.T, ex.st.get("alloc"), r.T))
+		ex.e.assume(fmt.Sprintf("(or (= %s nil) (select %s (rootref %s)))", r.T, ex.st.get("alloc"), r.T))
 	}
 }
 
@@ -418,12 +418,16 @@ func (ex *Exec) desigTarget(cl *Clause, m map[string]Val, st *State) (Val, types
 func (ex *Exec) havocAssigns(cc *Contract, m map[string]Val, pre *State) *State {
 	e := ex.e
 	if len(cc.Assigns) == 0 {
-		// no frame given: anything
-		return ex.jsEffect(pre)
+		// no frame given: anything. Only a callee declared "script" (it runs script and nothing
+		// else touches the VM registers) gets the benefit of the jspreserved assumption.
+		if cc.Flags["script"] {
+			return ex.jsEffect(pre)
+		}
+		return ex.jsEffect3(pre, false, true)
 	}
 	for _, cl := range cc.Assigns {
 		if cl.Desig == "all" {
-			return ex.jsEffect(pre)
+			return ex.jsEffect3(pre, ex.abruptFrame, true)
 		}
 	}
 	for _, cl := range cc.Assigns {
@@ -431,14 +435,42 @@ func (ex *Exec) havocAssigns(cc *Contract, m map[string]Val, pre *State) *State 
 			cond := ex.clauseTerm(cl, m, pre, pre, true)
 			cond = e.define("framecond", "Bool", cond)
 			same := pre.clone()
-			any := ex.jsEffect(pre)
+			var any *State
+			isScript := false
+			for _, c2 := range cc.Assigns {
+				if c2.Desig == "script" {
+					isScript = true
+				}
+			}
+			var rest []*Clause
+			for _, c2 := range cc.Assigns {
+				if c2.Desig != "nothing-if" {
+					rest = append(rest, c2)
+				}
+			}
+			switch {
+			case len(rest) > 0 && !(len(rest) == 1 && isScript):
+				// "nothing if C" together with designators: when C does not hold, the designators apply
+				cc2 := *cc
+				cc2.Assigns = rest
+				any = ex.havocAssigns(&cc2, m, pre)
+			case isScript:
+				any = ex.jsEffect2(pre, ex.abruptFrame)
+			default:
+				any = ex.jsEffect3(pre, ex.abruptFrame, true)
+			}
 			return mergeStates(e, []string{cond, "(not " + cond + ")"}, []*State{same, any})
 		}
 	}
 	post := pre.clone()
 	for _, cl := range cc.Assigns {
+		if cl.Desig == "script" {
+			post = ex.jsEffect2(pre, ex.abruptFrame)
+		}
+	}
+	for _, cl := range cc.Assigns {
 		switch cl.Desig {
-		case "nothing":
+		case "nothing", "script":
 		case "any":
 			sp := ex.g.pkgs[cc.PkgDir]
 			h, err := ex.g.lookupField(e, sp, cl.AnyT, cl.AnyF)
@@ -970,45 +1002,66 @@ func (env *Env) mathCallName(name string) (string, bool) {
 	return "", false
 }
 
-// frameCheck: at a return, everything the function may have modified is covered by its assigns clause.
-func (ex *Exec) frameCheck(p token.Pos) {
+// frameCover: what the function's assigns clause allows, per heap variable (designators are
+// evaluated in the entry state).
+type frameCov struct {
+	whole bool
+	refs  []string // Ref terms (field of specific object)
+	arrs  []string // ArrRef terms (elems)
+	elems [][2]string
+}
+
+type frameInfo struct {
+	cov         map[string]*frameCov
+	scriptFrame bool
+	ncond       string // "nothing if C": C (defined name), "" if none
+	ncondRaw    string
+	skip        bool // no frame to check (no assigns / all / plain nothing-if)
+}
+
+func (ex *Exec) frameCover() *frameInfo {
+	if ex.frameMemo != nil {
+		return ex.frameMemo
+	}
+	fi := &frameInfo{cov: map[string]*frameCov{}}
+	ex.frameMemo = fi
 	cc := ex.con
 	if cc == nil || len(cc.Assigns) == 0 {
-		return // no assigns clause: callers assume jsEffect
+		fi.skip = true
+		return fi
 	}
 	for _, cl := range cc.Assigns {
 		if cl.Desig == "all" {
-			return
-		}
-	}
-	for _, cl := range cc.Assigns {
-		if cl.Desig == "nothing-if" {
-			// conditional frame: when the condition held on entry no unknown code may have run
-			// (the per-variable frame is not checked for conditional frames)
-			cond := ex.clauseTerm(cl, ex.params, ex.entry, ex.entry, true)
-			ex.oblige("frame", "nothing-if-condition", fmt.Sprintf("(=> %s (not %s))", cond, ex.st.get("jsfx")), p)
-			return
+			fi.skip = true
+			return fi
 		}
 	}
 	e := ex.e
-	vars, all := ex.modSet(nil)
-	if all {
-		// unknown code may run somewhere in the function: not on a path that returns normally
-		ex.oblige("frame", "no-unknown-code-on-returning-paths", fmt.Sprintf("(not %s)", ex.st.get("jsfx")), p)
-	}
-	// designators per heap var
-	type cover struct {
-		whole bool
-		refs  []string // Ref terms (field of specific object)
-		arrs  []string // ArrRef terms (elems)
-		elems [][2]string
-	}
-	cov := map[string]*cover{}
-	get := func(h string) *cover {
-		if cov[h] == nil {
-			cov[h] = &cover{}
+	for _, cl := range cc.Assigns {
+		if cl.Desig == "nothing-if" {
+			cond := ex.clauseTerm(cl, ex.params, ex.entry, ex.entry, true)
+			fi.ncondRaw = cond
+			nrest := 0
+			for _, c2 := range cc.Assigns {
+				if c2.Desig != "nothing-if" && c2.Desig != "script" {
+					nrest++
+				}
+			}
+			if nrest == 0 {
+				fi.skip = true
+				return fi
+			}
+			fi.ncond = e.define("framecond", "Bool", cond)
 		}
-		return cov[h]
+		if cl.Desig == "script" {
+			fi.scriptFrame = true
+		}
+	}
+	get := func(h string) *frameCov {
+		if fi.cov[h] == nil {
+			fi.cov[h] = &frameCov{}
+		}
+		return fi.cov[h]
 	}
 	for _, cl := range cc.Assigns {
 		switch cl.Desig {
@@ -1035,9 +1088,7 @@ func (ex *Exec) frameCheck(p token.Pos) {
 					ex.unsup("assigns designator kind not supported in frame check: %s", cl.Text)
 				}
 			} else if _, isS := isStruct(et); isS {
-				hs := map[string]bool{}
 				ex.structRefHeaps(et, v.T, func(h, r string) { get(h).refs = append(get(h).refs, r) })
-				_ = hs
 			} else {
 				h := e.cellHeap(et)
 				get(h).refs = append(get(h).refs, v.T)
@@ -1069,57 +1120,153 @@ func (ex *Exec) frameCheck(p token.Pos) {
 			}
 		}
 	}
+	return fi
+}
+
+// frameFormula: heap variable h is unchanged (cur vs old) outside the designated places; r, a, i are
+// the (skolem or bound) names of the reference / array / index the formula talks about. ok == false:
+// the variable needs no check (covered as a whole, or not a heap of a checkable sort).
+func (ex *Exec) frameFormula(fi *frameInfo, h, cur, old, r, a, i string) (goal string, kind int) {
+	e := ex.e
+	srt := e.hsort[h]
+	c := fi.cov[h]
+	switch {
+	case strings.HasPrefix(srt, "(Array Ref "):
+		var ex1 []string
+		ex1 = append(ex1, fmt.Sprintf("(not (select %s (rootref %s)))", ex.entry.get("alloc"), r))
+		if c != nil {
+			for _, x := range c.refs {
+				ex1 = append(ex1, fmt.Sprintf("(= %s %s)", r, x))
+			}
+			for _, ar := range c.arrs {
+				ex1 = append(ex1, fmt.Sprintf("(and ((_ is elemref) %s) (= (elemref_arr %s) %s))", r, r, ar))
+			}
+		}
+		// elements of arrays allocated during the call
+		ex1 = append(ex1, fmt.Sprintf("(and ((_ is elemref) %s) (not (select %s (elemref_arr %s))))", r, ex.entry.get("allocA"), r))
+		return fmt.Sprintf("(or %s (= (select %s %s) (select %s %s)))", strings.Join(ex1, " "), cur, r, old, r), 1
+	case strings.HasPrefix(srt, "(Array ArrRef "):
+		var ex1 []string
+		ex1 = append(ex1, fmt.Sprintf("(not (select %s %s))", ex.entry.get("allocA"), a))
+		if c != nil {
+			for _, x := range c.arrs {
+				ex1 = append(ex1, fmt.Sprintf("(= %s %s)", a, x))
+			}
+			for _, el := range c.elems {
+				ex1 = append(ex1, fmt.Sprintf("(and (= %s %s) (= %s %s))", a, el[0], i, el[1]))
+			}
+		}
+		return fmt.Sprintf("(or %s (= (select (select %s %s) %s) (select (select %s %s) %s)))", strings.Join(ex1, " "), cur, a, i, old, a, i), 2
+	}
+	return fmt.Sprintf("(= %s %s)", cur, old), 0
+}
+
+// frameCheck: at a return, everything the function may have modified is covered by its assigns clause.
+func (ex *Exec) frameCheck(p token.Pos) {
+	fi := ex.frameCover()
+	cc := ex.con
+	if cc == nil || len(cc.Assigns) == 0 {
+		return // no assigns clause: callers assume the worst
+	}
+	if fi.ncondRaw != "" {
+		// conditional frame: when the condition held on entry no unknown code may have run
+		ex.oblige("frame", "nothing-if-condition", fmt.Sprintf("(=> %s (not %s))", fi.ncondRaw, ex.st.get("jsfx")), p)
+	}
+	if fi.skip {
+		return
+	}
+	e := ex.e
+	vars, all := ex.modSet(nil)
+	if all && !fi.scriptFrame && fi.ncond == "" {
+		// unknown code may run somewhere in the function: not on a path that returns normally
+		ex.oblige("frame", "no-unknown-code-on-returning-paths", fmt.Sprintf("(not %s)", ex.st.get("jsfx")), p)
+	}
+	if fi.scriptFrame && all {
+		// frameless Go callees may have assigned the fields script is assumed to preserve: each
+		// of them has to be unchanged or listed
+		for h := range ex.g.jsPreserved {
+			vars[h] = true
+		}
+	}
 	for _, h := range sortedKeys(vars) {
 		if h == "alloc" || h == "allocA" || strings.HasPrefix(h, "L_") {
 			continue
 		}
-		srt, ok := e.hsort[h]
-		if !ok {
+		if _, ok := e.hsort[h]; !ok {
 			continue
 		}
-		c := cov[h]
-		if c != nil && c.whole {
+		if fi.scriptFrame && !ex.g.jsPreserved[h] {
+			continue // callers assume nothing about it anyway
+		}
+		if c := fi.cov[h]; c != nil && c.whole {
 			continue
 		}
 		cur, old := ex.st.get(h), ex.entry.get(h)
 		if cur == old {
 			continue
 		}
-		var goal string
-		switch {
-		case strings.HasPrefix(srt, "(Array Ref "):
-			r := e.freshConst("fr", "Ref")
-			var ex1 []string
-			ex1 = append(ex1, fmt.Sprintf("(not (select %s %s))", ex.entry.get("alloc"), r))
-			if c != nil {
-				for _, x := range c.refs {
-					ex1 = append(ex1, fmt.Sprintf("(= %s %s)", r, x))
-				}
-				for _, a := range c.arrs {
-					ex1 = append(ex1, fmt.Sprintf("(and ((_ is elemref) %s) (= (elemref_arr %s) %s))", r, r, a))
-				}
-			}
-			// elements of arrays allocated during the call
-			ex1 = append(ex1, fmt.Sprintf("(and ((_ is elemref) %s) (not (select %s (elemref_arr %s))))", r, ex.entry.get("allocA"), r))
-			goal = fmt.Sprintf("(or %s (= (select %s %s) (select %s %s)))", strings.Join(ex1, " "), cur, r, old, r)
-		case strings.HasPrefix(srt, "(Array ArrRef "):
-			a := e.freshConst("fa", "ArrRef")
-			i := e.freshConst("fi", "Int")
-			var ex1 []string
-			ex1 = append(ex1, fmt.Sprintf("(not (select %s %s))", ex.entry.get("allocA"), a))
-			if c != nil {
-				for _, x := range c.arrs {
-					ex1 = append(ex1, fmt.Sprintf("(= %s %s)", a, x))
-				}
-				for _, el := range c.elems {
-					ex1 = append(ex1, fmt.Sprintf("(and (= %s %s) (= %s %s))", a, el[0], i, el[1]))
-				}
-			}
-			goal = fmt.Sprintf("(or %s (= (select (select %s %s) %s) (select (select %s %s) %s)))", strings.Join(ex1, " "), cur, a, i, old, a, i)
-		default:
-			goal = fmt.Sprintf("(= %s %s)", cur, old)
+		goal, _ := ex.frameFormula(fi, h, cur, old, e.freshConst("fr", "Ref"), e.freshConst("fa", "ArrRef"), e.freshConst("fi", "Int"))
+		if fi.ncond != "" {
+			goal = fmt.Sprintf("(and (=> %s (= %s %s)) (=> (not %s) %s))", fi.ncond, cur, old, fi.ncond, goal)
 		}
 		ex.oblige("frame", h, goal, p)
+	}
+}
+
+// loopFrameVars: the heap variables for which the function's frame is carried through a loop as an
+// implicit invariant (assumed at the head after the havoc, checked on every back edge).
+func (ex *Exec) loopFrameVars(vars map[string]bool) []string {
+	fi := ex.frameCover()
+	if fi.skip || fi.ncond != "" || ex.con == nil || len(ex.con.Assigns) == 0 {
+		return nil
+	}
+	var out []string
+	for _, h := range sortedKeys(vars) {
+		if h == "alloc" || h == "allocA" || strings.HasPrefix(h, "L_") {
+			continue
+		}
+		srt, ok := ex.e.hsort[h]
+		if !ok || !(strings.HasPrefix(srt, "(Array Ref ") || strings.HasPrefix(srt, "(Array ArrRef ")) {
+			continue
+		}
+		if fi.scriptFrame && !ex.g.jsPreserved[h] {
+			continue
+		}
+		if c := fi.cov[h]; c != nil && c.whole {
+			continue
+		}
+		out = append(out, h)
+	}
+	return out
+}
+
+func (ex *Exec) assumeLoopFrame(hs []string) {
+	fi := ex.frameCover()
+	for _, h := range hs {
+		cur, old := ex.st.get(h), ex.entry.get(h)
+		if cur == old {
+			continue
+		}
+		r, a, i := ex.e.fresh("bv_fr"), ex.e.fresh("bv_fa"), ex.e.fresh("bv_fi")
+		body, kind := ex.frameFormula(fi, h, cur, old, r, a, i)
+		switch kind {
+		case 1:
+			ex.assumeHere(fmt.Sprintf("(forall ((%s Ref)) (! %s :pattern ((select %s %s))))", r, body, cur, r))
+		case 2:
+			ex.assumeHere(fmt.Sprintf("(forall ((%s ArrRef) (%s Int)) (! %s :pattern ((select (select %s %s) %s))))", a, i, body, cur, a, i))
+		}
+	}
+}
+
+func (ex *Exec) checkLoopFrame(hs []string, n int, p token.Pos) {
+	fi := ex.frameCover()
+	for _, h := range hs {
+		cur, old := ex.st.get(h), ex.entry.get(h)
+		if cur == old {
+			continue
+		}
+		goal, _ := ex.frameFormula(fi, h, cur, old, ex.e.freshConst("fr", "Ref"), ex.e.freshConst("fa", "ArrRef"), ex.e.freshConst("fi", "Int"))
+		ex.oblige(fmt.Sprintf("loop%d-preserve", n), "frame:"+h, goal, p)
 	}
 }
 
